@@ -468,7 +468,7 @@ def main(argv):
         r = unit_results[u]
         cov['units'][u] = {'engine': 'VX', 'role': P['vx'][u], 'obligations': len(r['obligations']), 'failed': len(r['failed']),
                            'functions_verified': r.get('n_under_contract'), 'canaries_fired': r.get('canaries_fired'),
-                           'wall_s': round(r.get('wall_s', 0), 1), 'cmd': r.get('cmd')}
+                           'wall_s': round(r.get('wall_s', 0), 1), 'cmd': r.get('cmd'), 'assumption_scan': r.get('assumption_scan')}
     for u in kx_units:
         desc = load_kx_unit(u)
         cov['units'][u] = {'engine': 'KX', 'role': P['kx'][u], 'crate': desc['crate'], 'harnesses': [
